@@ -48,7 +48,7 @@ theorem getLast_eq_getElem (xs : List ℝ) (hne : xs ≠ []) :
 /-- `brackets` on a strictly increasing table: `j` is the first index ≥ 1 whose knot is `≥ x` -/
 theorem brackets_found {xs : List ℝ} (x : ℝ) (j : Nat) (hj1 : 1 ≤ j) (hj : j < xs.length)
     (h0 : ¬ x < xs[0]'(by omega)) (hlast : ¬ xs[xs.length - 1]'(by omega) < x)
-    (hbelow : ∀ i (hi1 : 1 ≤ i) (hij : i < j), xs[i]'(by omega) < x) (hx : x ≤ xs[j]) :
+    (hbelow : ∀ i (_hi1 : 1 ≤ i) (hij : i < j), xs[i]'(by omega) < x) (hx : x ≤ xs[j]) :
     brackets x xs = .ok (some (j - 1, j)) := by
   match xs, hj, h0, hlast, hbelow, hx with
   | x0 :: rest, hj, h0, hlast, hbelow, hx =>
@@ -57,7 +57,7 @@ theorem brackets_found {xs : List ℝ} (x : ℝ) (j : Nat) (hj1 : 1 ≤ j) (hj :
     have h0' : ¬ x < x0 := by simpa using h0
     rw [if_neg h0']
     have hl : (x0 :: rest).getLast?.getD x0 = (x0 :: rest)[(x0 :: rest).length - 1]'(by simp) := by
-      rw [List.getLast?_eq_getLast hne, Option.getD_some, List.getLast_eq_getElem]
+      rw [List.getLast?_eq_some_getLast hne, Option.getD_some, List.getLast_eq_getElem]
     simp only [hl]
     rw [if_neg hlast]
     -- decompose rest around index j-1
